@@ -314,28 +314,36 @@ Definition mismatches (cs : list case) : list nat := K_World.index_filter agrees
 (* ---------------- the property on the implementation's observations ---------------- *)
 Definition obs_quiescent (v : views) : bool := forallb (fun s => negb (n_dirty s)) (w_snaps v) && forallb (fun z => negb (z_dirty z)) (w_idres v).
 
-(* at every quiescent point the live cache answers what a cache rebuilt from the git data answers *)
+(* at every quiescent point the live cache answers what a cache rebuilt from the git data answers;
+   and Resolve never hands out an entity that is locked for ever (a rebuilt cache never does, whatever is staged on other bugs) *)
 Definition step_ok (h : hev * gobs) : bool :=
   match fst h with
-  | HObserve _ _ live rebuilt => negb (obs_quiescent live) || N.eqb (views_diff live rebuilt) 0
+  | HObserve _ _ live rebuilt =>
+      forallb (fun s => negb (N.eqb (n_state s) 2)) (w_snaps live) &&
+      (negb (obs_quiescent live) || N.eqb (views_diff live rebuilt) 0)
   | _ => true
   end.
 Definition C11_ok (c : case) : bool := forallb step_ok (c_steps c).
 Definition failing (cs : list case) : list nat := K_World.index_filter C11_ok 0 cs.
 
-(* replay diagnosis: (divergence from the repaired model; first observation where live <> rebuilt: step, view;
-   which single "code as found" variant reproduces the observations, if any: 1 index, 2 identity, 3 merge result, 4 eviction) *)
-Fixpoint first_bad (l : list (hev * gobs)) (i : nat) : option (nat * N) :=
+(* replay diagnosis: (divergence from the repaired model; every observation where live <> rebuilt: step, first differing view (8: locked handle);
+   which "code as found" variants reproduce the observations, if any: 1 index, 2 identity, 3 merge result, 4 eviction, 5-7 combinations) *)
+Fixpoint all_bad (l : list (hev * gobs)) (i : nat) : list (nat * N) :=
   match l with
-  | [] => None
-  | h :: t => if step_ok h then first_bad t (S i)
-              else match fst h with HObserve _ _ live rebuilt => Some (i, views_diff live rebuilt) | _ => None end
+  | [] => []
+  | h :: t => if step_ok h then all_bad t (S i)
+              else match fst h with
+                   | HObserve _ _ live rebuilt => (i, if forallb (fun s => negb (N.eqb (n_state s) 2)) (w_snaps live) then views_diff live rebuilt else 8) :: all_bad t (S i)
+                   | _ => all_bad t (S i) end
   end.
 Definition variants : list (N * variant) := [
   (1, {| v_index_merged := false; v_ident_updated := true; v_merge_result := true; v_keep_newest := true |});
   (2, {| v_index_merged := true; v_ident_updated := false; v_merge_result := true; v_keep_newest := true |});
   (3, {| v_index_merged := true; v_ident_updated := true; v_merge_result := false; v_keep_newest := true |});
-  (4, {| v_index_merged := true; v_ident_updated := true; v_merge_result := true; v_keep_newest := false |})].
-Definition explain (c : case) : option (nat * N) * option (nat * N) * list N :=
-  (divergence fixed c, first_bad (c_steps c) 0,
+  (4, {| v_index_merged := true; v_ident_updated := true; v_merge_result := true; v_keep_newest := false |});
+  (5, {| v_index_merged := false; v_ident_updated := true; v_merge_result := true; v_keep_newest := false |});   (* 1 and 4 together *)
+  (6, {| v_index_merged := false; v_ident_updated := false; v_merge_result := true; v_keep_newest := false |});  (* 1, 2 and 4 *)
+  (7, {| v_index_merged := false; v_ident_updated := false; v_merge_result := false; v_keep_newest := false |})]. (* all four: the pinned tree *)
+Definition explain (c : case) : option (nat * N) * list (nat * N) * list N :=
+  (divergence fixed c, all_bad (c_steps c) 0,
    map fst (filter (fun p => match divergence (snd p) c with None => true | Some _ => false end) variants)).
